@@ -6,6 +6,10 @@ Re-extracts, from the repository's working tree on every run,
       (the classes the model covers, and a count of any other class that has one);
     * per __getbuffer__: the item format literal (b"B\\0" ...), `ndim`, the type whose
       size is the itemsize, and whether shape/strides are exported or NULL;
+    * per __getbuffer__ also: readonly, suboffsets/internal NULL, view.obj, the WRITABLE and
+      NULL-view guards, that `flags` is used for nothing else; classes with __releasebuffer__;
+    * lightmotif/src: DEFAULT_EXTRA_ROWS (seq.rs, and its two uses in pli/mod.rs), the
+      repr(align) of dense.rs Row on x86_64, the Lanes of Dispatch on x86 (DefaultColumns);
     * the shape / strides arrays cached by `From<StripedSequenceData> for StripedSequence`,
       `ScoringMatrix::new` and `From<StripedScores<f32>> for StripedScores`, as
       polynomials in R (rows), C (columns), S (row stride in elements);
@@ -145,10 +149,12 @@ def translate():
             if cls not in slots:
                 raise ParseError("no #[pymethods] block for " + cls)
         bufs = {}
+        misc = {}
         for k, cls in KINDS:
             body = fn_body(blocks[cls], "__getbuffer__")
             if body is None:
                 bufs[k] = None
+                misc[k] = None
                 continue
             f = re.findall(r'from_bytes_with_nul\(b"(\w)\\0"\)', body)
             nd = re.findall(r"\(\*view\)\.ndim\s*=\s*(\d+)\s*;", body)
@@ -161,12 +167,53 @@ def translate():
                 raise ParseError("unknown format/itemsize in __getbuffer__ of " + cls)
             null = lambda e: "null_mut" in e
             bufs[k] = (FMT[f[0]], int(nd[0]), SIZES[it[0]], not null(sh[0]), not null(st[0]))
+            # guards and the remaining fields
+            ro = re.findall(r"\(\*view\)\.readonly\s*=\s*(\d+)\s*;", body)
+            sub = re.findall(r"\(\*view\)\.suboffsets\s*=\s*([^;]+);", body)
+            internal = re.findall(r"\(\*view\)\.internal\s*=\s*([^;]+);", body)
+            own = re.findall(r"\(\*view\)\.obj\s*=\s*pyo3::ffi::_Py_NewRef\(slf\.as_ptr\(\)\)\s*;", body)
+            wr = re.search(r"if\s*\(flags\s*&\s*pyo3::ffi::PyBUF_WRITABLE\)\s*==\s*pyo3::ffi::PyBUF_WRITABLE\s*\{\s*return\s+Err\(PyBufferError::new_err", body)
+            nl = re.search(r"if\s+view\.is_null\(\)\s*\{\s*return\s+Err\(PyBufferError::new_err", body)
+            flag_uses = len(re.findall(r"\bflags\b", body))
+            if len(ro) != 1 or len(sub) != 1 or len(internal) != 1:
+                raise ParseError("cannot read readonly/suboffsets/internal in __getbuffer__ of " + cls)
+            # (readonly, suboffsets NULL, internal NULL, owns exporter, refuses WRITABLE, refuses NULL view,
+            #  flags used for nothing else: `flags` occurs once in the body: the WRITABLE test)
+            misc[k] = (ro[0] == "1", null(sub[0]), null(internal[0]), len(own) == 1, wr is not None, nl is not None,
+                       flag_uses == 1)
+        release = [cls for cls, blk in blocks.items() if fn_body(blk, "__releasebuffer__") is not None]
         ss = ctor_body(src, r"impl\s+From<StripedSequenceData>\s+for\s+StripedSequence\s*\{", "StripedSequence")
         sm = ctor_body(src, r"impl\s+ScoringMatrix\s*\{\s*fn\s+new\b[^{]*\{", "ScoringMatrix::new")
         sc = ctor_body(src, r"impl\s+From<lightmotif::scores::StripedScores<f32>>\s+for\s+StripedScores\s*\{", "StripedScores")
         arrays = {}
         for name, body in (("striped", ss), ("scoring", sm), ("scores", sc)):
             arrays[name] = (array2(body, "shape"), array2(body, "strides"))
+        # constants of the core crate the model copies
+        core = os.path.join(REPO, "lightmotif", "src")
+        seq_rs = strip_comments(open(os.path.join(core, "seq.rs")).read())
+        m = re.search(r"const\s+DEFAULT_EXTRA_ROWS\s*:\s*usize\s*=\s*(\d+)\s*;", seq_rs)
+        if not m:
+            raise ParseError("DEFAULT_EXTRA_ROWS not found in seq.rs")
+        extra_rows = int(m.group(1))
+        pli_mod = strip_comments(open(os.path.join(core, "pli", "mod.rs")).read())
+        if len(re.findall(r"rows\s*\+\s*crate::seq::DEFAULT_EXTRA_ROWS", pli_mod)) != 2:
+            raise ParseError("Stripe::stripe / stripe_into no longer compute capacity = rows + DEFAULT_EXTRA_ROWS")
+        dense_rs = strip_comments(open(os.path.join(core, "dense.rs")).read())
+        m = re.search(r'#\[cfg_attr\(target_arch\s*=\s*"x86_64",\s*repr\(align\((\d+)\)\)\)\]', dense_rs)
+        if not m:
+            raise ParseError("repr(align) of Row for x86_64 not found in dense.rs")
+        row_align = int(m.group(1))
+        if not re.search(r"type\s+DefaultColumns\s*=\s*<Dispatch\s+as\s+Backend>::Lanes\s*;", dense_rs):
+            raise ParseError("DefaultColumns is no longer <Dispatch as Backend>::Lanes")
+        disp = strip_comments(open(os.path.join(core, "pli", "dispatch.rs")).read())
+        m = re.search(r'#\[cfg\(any\(target_arch\s*=\s*"x86",\s*target_arch\s*=\s*"x86_64"\)\)\]\s*type\s+Lanes\s*=\s*<(\w+)\s+as\s+Backend>::Lanes\s*;', disp)
+        if not m:
+            raise ParseError("Lanes of Dispatch on x86 not found in dispatch.rs")
+        plat = strip_comments(open(os.path.join(core, "pli", "platform", m.group(1).lower() + ".rs")).read())
+        m2 = re.search(r"impl\s+Backend\s+for\s+%s\s*\{\s*type\s+Lanes\s*=\s*U(\d+)\s*;" % m.group(1), plat)
+        if not m2:
+            raise ParseError("Lanes of %s not found" % m.group(1))
+        lanes = int(m2.group(1))
     except (ParseError, OSError) as e:
         return dict(ok=False, errors=["pyidx_slots: %s" % e], notes=notes)
 
@@ -184,6 +231,20 @@ def translate():
         v = bufs[k]
         L.append("  | %s => %s" % (k, "None" if v is None else "Some (%s, %d, %d%%Z, %s, %s)" % (v[0], v[1], v[2], b(v[3]), b(v[4]))))
     L.append("  end.\n")
+    L.append("(* __getbuffer__: (readonly, suboffsets NULL, internal NULL, view.obj = new reference to the exporter,")
+    L.append("   WRITABLE requests refused, NULL view refused, flags used for nothing else) *)")
+    L.append("Definition gen_getbuffer_misc (k : kind) : option (bool * bool * bool * bool * bool * bool * bool) :=\n  match k with")
+    for k, cls in KINDS:
+        v = misc[k]
+        L.append("  | %s => %s" % (k, "None" if v is None else "Some (%s)" % ", ".join(b(x) for x in v)))
+    L.append("  end.\n")
+    L.append("(* classes defining __releasebuffer__ *)")
+    L.append("Definition gen_releasebuffer_classes : nat := %d.\n" % len(release))
+    L.append("(* constants of the core crate: seq.rs DEFAULT_EXTRA_ROWS (capacity = rows + it in Stripe::stripe and")
+    L.append("   stripe_into), dense.rs repr(align) of Row on x86_64, Lanes of Dispatch on x86 (= DefaultColumns) *)")
+    L.append("Definition gen_extra_rows : nat := %d." % extra_rows)
+    L.append("Definition gen_row_align : nat := %d." % row_align)
+    L.append("Definition gen_lanes : nat := %d.\n" % lanes)
     L.append("(* classes outside the model that define __len__/__getitem__/__getbuffer__ *)")
     L.append("Definition gen_unmodelled_slots : nat := %d.\n" % len(other))
     for name in ("striped", "scoring", "scores"):
